@@ -19,7 +19,7 @@ def deprecated(func: F) -> F:
 
     @wraps(func)
     def wrapper(*args: Any, **kwargs: Any) -> ReturnType:
-        _raise_warning(msg=f'Call to deprecated function {getattr(func, "__qualname__", repr(func))}.', category=DeprecationWarning)
+        _raise_warning(msg=f'Call to deprecated function {func.__qualname__ if hasattr(func, "__qualname__") else repr(func)}.', category=DeprecationWarning)
         return func(*args, **kwargs)
     return wrapper
 
